@@ -754,3 +754,53 @@ package biscuit
 //@ modifies nothing
 //@ ensures found: err == nil ==> 0 <= res && res <= len(b.blocks)
 //@ ensures not_found: err != nil ==> res == 0 && err == ErrFactNotFound
+
+// ---------------------------------------------------------------------------
+// authorizer snapshots (C18)
+
+//@ func (v *authorizer) SerializePolicies() (res []byte, err error)
+//@ serves C10 C18
+//@ requires authInv(v)
+//@ modifies *v.symbols, spare(*v.symbols)
+//@ loop 0 modifies elems(protoFacts)
+//@ loop 0 invariant len(protoFacts) == len(*v.world.facts) && fresh(arr(protoFacts))
+//@ loop 1 modifies elems(protoRules)
+//@ loop 1 invariant len(protoRules) == len(v.world.rules) && fresh(arr(protoRules))
+//@ loop 2 modifies elems(protoChecks), *v.symbols, spare(*v.symbols)
+//@ loop 2 invariant len(protoChecks) == len(v.checks) && fresh(arr(protoChecks))
+//@ loop 2 invariant syms: tableGrown(*v.symbols, old(*v.symbols)) && tableGrownInLoop(*v.symbols, pre(*v.symbols))
+//@ loop 3 modifies elems(protoPolicies), *v.symbols, spare(*v.symbols)
+//@ loop 3 invariant len(protoPolicies) == len(v.policies) && fresh(arr(protoPolicies))
+//@ loop 3 invariant syms: tableGrown(*v.symbols, old(*v.symbols)) && tableGrownInLoop(*v.symbols, pre(*v.symbols))
+//@ loop 4 modifies elems(protoPolicy.Queries), *v.symbols, spare(*v.symbols)
+//@ loop 4 invariant protoPolicy != nil && fresh(protoPolicy) && len(protoPolicy.Queries) == len(policy.Queries) && fresh(arr(protoPolicy.Queries)) && bPolicyWF(policy)
+//@ loop 4 invariant syms: tableGrown(*v.symbols, old(*v.symbols)) && tableGrownInLoop(*v.symbols, pre(*v.symbols))
+//@ ensures refused_once_evaluated[C18]: old(v.dirty) ==> err != nil && res == nil
+//@ ensures no_bytes_on_error[C18]: err != nil ==> res == nil
+
+//@ func (v *authorizer) LoadPolicies(authorizerPolicies []byte) (err error)
+//@ serves C10 C18
+//@ requires authInv(v)
+//@ modifies v.symbols, v.checks, v.policies, *v.world.facts, spare(*v.world.facts), v.world.rules, spare(v.world.rules)
+
+//@ func (v *authorizer) loadPoliciesV2(pbPolicies *pb.AuthorizerPolicies) (err error)
+//@ serves C10 C18
+//@ requires authInv(v) && pbPoliciesWF(pbPolicies)
+//@ modifies v.symbols, v.checks, v.policies, *v.world.facts, spare(*v.world.facts), v.world.rules, spare(v.world.rules)
+//@ loop 0 modifies *v.world.facts, spare(*v.world.facts)
+//@ loop 0 invariant wf: authWF(v)
+//@ loop 0 invariant content: contentWF(v.biscuit)
+//@ loop 0 invariant fapart: factsApart(v)
+//@ loop 0 invariant facts: factsGrown(*v.world.facts, old(*v.world.facts)) && factsGrownInLoop(*v.world.facts, pre(*v.world.facts))
+//@ loop 1 modifies v.world.rules, spare(v.world.rules)
+//@ loop 1 invariant wf: authWF(v)
+//@ loop 1 invariant content: contentWF(v.biscuit)
+//@ loop 1 invariant rapart: rulesApart(v)
+//@ loop 1 invariant rules: rulesGrown(v.world.rules, old(v.world.rules)) && rulesGrownInLoop(v.world.rules, pre(v.world.rules))
+//@ loop 2 modifies elems(v.checks)
+//@ loop 2 invariant len(v.checks) == len(pbPolicies.Checks) && fresh(arr(v.checks)) && v.symbols != nil
+//@ loop 3 modifies elems(v.policies)
+//@ loop 3 invariant len(v.policies) == len(pbPolicies.Policies) && fresh(arr(v.policies)) && v.symbols != nil
+//@ loop 4 modifies elems(policy.Queries)
+//@ loop 4 invariant len(policy.Queries) == len(pbPolicy.Queries) && fresh(arr(policy.Queries)) && v.symbols != nil
+//@ ensures counts[C18]: err == nil ==> len(v.checks) == len(pbPolicies.Checks) && len(v.policies) == len(pbPolicies.Policies)
